@@ -19,7 +19,7 @@ STUBS = ["pysam.AlignmentFile / AlignedSegment -> contract stubs: header['RG'] l
          "everything inside pysam/htslib (BAM/CRAM decoding, CIGAR -> aligned pairs, fetch overlap, clipping) is outside the claim"]
 ASSUMES = ["the expected matrix is a z3 term over ALL read variables (fold over alignments in file order); the obligation is pc => expected == observed, so attributes the code never looked at are universally quantified",
            "bases range over {REF, ALT, N}; read names over 2 values; 3 read groups (two for sample A, one for sample B)"]
-BOUNDS = {"quick": "read probabilities: every call pattern of 2 reads x 2 SNVs (2 and 3 alleles) with a symbolic error rate; SNV file vs FASTA: 2 records (thorough 3) at 2 positions, possibly sharing one, and 3 records at one position (a tri-allelic site split per ALT), REF in {A,C}, any ALT, FASTA bases in {A,C}, sequence-first and variants-first; 2 alignments x 1 SNV, read groups {rg0->A, rg2->B}, bases {REF, ALT} (thorough: 3 read groups, bases {REF, ALT, N}), four combinations of the keep flags (thorough: all eight), MAPQ and threshold symbolic in 0..2, id field SM and ID, either sample; pool of two samples; reference mismatch injected at any aligned site; command line -> extract_read_variants / encode_read_distributions for assemble, call, call-exact, call-pedigree: 48 option settings each (3 keep flags x 3 mapping qualities x {defaults, read-group field ID + explicit error rate + phred scores}) on the repository's test files, arguments bound through the callees' own signatures",
+BOUNDS = {"quick": "read probabilities: every call pattern of 2 reads x 2 SNVs (2 and 3 alleles) with a symbolic error rate; SNV file vs FASTA: 2 records (thorough 3) at 2 positions, possibly sharing one, and 3 records at one position (a tri-allelic site split per ALT), REF in {A,C}, any ALT, FASTA bases in {A,C}, sequence-first and variants-first; 2 alignments x 1 SNV, read groups {rg0->A, rg2->B}, bases {REF, ALT} (thorough: 3 read groups, bases {REF, ALT, N}), four combinations of the keep flags (thorough: all eight), MAPQ and threshold symbolic in 0..2, id field SM and ID, either sample; pool of two samples; reference mismatch injected at any aligned site; command line -> extract_read_variants / encode_read_distributions for assemble, call, call-exact, call-pedigree: 64 option settings each (3 keep flags x 4 mapping qualities incl. 0 x {defaults, read-group field ID + explicit error rate + phred scores}) on the repository's test files, arguments bound through the callees' own signatures",
           "thorough": "2 alignments x 1 SNV on the wide domain (3 read groups, bases {REF, ALT, N}; all eight keep-flag settings, each sample / read-group id, reference mismatch injected) and 3 alignments x 1 SNV on the small domain (keep flags all on / all off, mismatch); SNV file vs FASTA with 3 records; shared-file layouts on the wide domain; 2 alignments x 2 SNVs was sized at > 25 CPU-minutes per configuration and is outside the tier"}
 OUTSIDE = "htslib decoding, CIGAR handling, fetch overlap semantics, CRAM reference lookup (pysam); phred-based probabilities (float)"
 TASKS_PER_CHILD = 2
@@ -65,7 +65,7 @@ def configs(tier):
 # ------------------------------------------------------------------ command line -> program -> extract_read_variants
 CLI_PROGS = {"assemble": "mchap.application.assemble", "call": "mchap.application.call", "call-exact": "mchap.application.call_exact",
              "call-pedigree": "mchap.application.call_pedigree"}
-CLI_MQ = [None, 7, 33]
+CLI_MQ = [None, 0, 7, 33]
 
 
 def _cli_drive(load, progname, choice):
